@@ -10,7 +10,7 @@ import os
 import pickle
 
 from .panics import constraint
-from .pe import (BreakEx, ContinueEx, Evaluator, ListV, SymObj, Tag, Toks, explore, show_toks, vkey)
+from .pe import (BreakEx, ContinueEx, Evaluator, ListV, NeedDecision, SymObj, Tag, Toks, explore, show_toks, vkey)
 from .src import Inconclusive, VERIF, render, walk
 from .tables import EXPAND, IMPL_FILES
 
@@ -114,6 +114,23 @@ def struct_iter_table(repo):
             env["fragments"] = ListV([])
             env["idx"] = SymObj("idx", ("int",))
             env["type_hint"] = SymObj("type_hint", ("named", "TypeHint"))
+            # other locals computed before the loop (hoisted sub-expressions such as `let is_from = ctx.kind.is_from();`) keep their
+            # definition, so that hoisting a sub-expression out of the loop does not change the table
+            for st in fi.body["stmts"]:
+                if st is loop or st.get("expr") is loop or st["line"] >= loop["line"]:
+                    break
+                if st["k"] == "Let" and st.get("init") is not None and st["init"]["k"] != "Closure":
+                    p = st["pat"]
+                    while p["k"] in ("PType", "PRef"):
+                        p = p["pat"]
+                    if p["k"] != "PIdent" or p["name"] in env:
+                        continue
+                    try:
+                        env[p["name"]] = ev.eval(st["init"], env)
+                    except NeedDecision:
+                        raise
+                    except Exception:
+                        env[p["name"]] = SymObj(p["name"], ("named", "?"))
             src = ev.eval(loop["cond"]["expr"], env)
             if not ev.bind(loop["cond"]["pat"], src, env):
                 return "exit"
